@@ -850,6 +850,11 @@ func (g *fnGen) doAppend(st *state, cc *ssa.CallCommon, resV ssa.Value, ca *call
 	if resV != nil {
 		g.vals[resV] = r
 	}
+	if g.ct != nil && g.ct.Flags["writes-only-fresh-slices"] {
+		// append may write in place when the capacity allows: then the backing array must be this call's own
+		site, _ := g.callSiteKey(cc)
+		g.oblige(st, "fresh-write", "append "+site, cc.Pos(), "", Or(S("=", tlen, "0"), S(">", newLen, S("s-cap", s)), S(">=", S("s-base", s), g.entry.alloc)), "append either reallocates or extends a backing array allocated by this call (never writes into the spare capacity of memory that existed at entry)")
+	}
 	if _, isStruct := sl.Elem().Underlying().(*types.Struct); isStruct {
 		g.abstracted["append to slice of structs: contents not modelled"] = true
 		// struct fields keyed by element address: havoc nothing (new cells unconstrained)
